@@ -359,7 +359,48 @@ func c14Chain(p *load.Program, r *core.Report) {
 			}
 		}
 	})
-	if sends == 2 && highPrio {
+	// each send addresses an element of the consumer list exactly as CleanupNode returned it for
+	// that target (the map value of the range over CleanupNode's result, not a sub-slice or another list)
+	wholeList := 0
+	eachInstr(down, func(in ssa.Instruction) {
+		cc := callCommon(in)
+		if cc == nil {
+			return
+		}
+		sf := staticCallee(cc)
+		if sf == nil || (sf.Name() != "sendExitMessage" && sf.Name() != "RouteSendPID") || len(cc.Args) < 3 {
+			return
+		}
+		to := cc.Args[2]
+		ld, ok := to.(*ssa.UnOp)
+		if !ok || ld.Op != token.MUL {
+			return
+		}
+		ia, ok := ld.X.(*ssa.IndexAddr)
+		if !ok {
+			return
+		}
+		ex, ok := ia.X.(*ssa.Extract)
+		if !ok || ex.Index != 2 {
+			return
+		}
+		nx, ok := ex.Tuple.(*ssa.Next)
+		if !ok {
+			return
+		}
+		rg, ok := nx.Iter.(*ssa.Range)
+		if !ok {
+			return
+		}
+		if src, ok := rg.X.(*ssa.Extract); ok {
+			if c, okc := src.Tuple.(*ssa.Call); okc && callsNamed(c, "CleanupNode") {
+				wholeList++
+			}
+		}
+	})
+	if sends == 2 && highPrio && wholeList != 2 {
+		r.Bad(rule, "C14.X1|RouteNodeDown|fan-out", fname(down), p.Pos(down.Pos()), "one exit per link consumer, one High-priority down per monitor consumer", fmt.Sprintf("only %d of the 2 send loops walk the whole consumer list CleanupNode returned for the target: some consumers are never told that the node is down", wholeList))
+	} else if sends == 2 && highPrio {
 		r.OK(rule, "C14.X1|RouteNodeDown|fan-out", fname(down), p.Pos(down.Pos()), "one exit per link consumer, one High-priority down per monitor consumer", "2 send sites (one per loop), options.Priority = High")
 	} else {
 		r.Bad(rule, "C14.X1|RouteNodeDown|fan-out", fname(down), p.Pos(down.Pos()), "one exit per link consumer, one High-priority down per monitor consumer", fmt.Sprintf("send sites: %d (expected 2), High priority set: %v", sends, highPrio))
